@@ -34,9 +34,10 @@ import (
 // reported as a problem.
 
 type c08case struct {
-	ScanMode string   `json:"scanmode"` // accelerated | full
-	Mod      string   `json:"mod"`      // the one external modification (event "mod")
-	Events   []string `json:"events"`   // scan | mod | tick1 | tick3 | stage | transition
+	ScanMode string   `json:"scanmode"`           // accelerated | full
+	Mod      string   `json:"mod"`                // the one external modification (event "mod")
+	Events   []string `json:"events"`             // scan | mod | tick1 | tick3 | stage | transition
+	ExecOnly bool     `json:"execonly,omitempty"` // C18 leg: only the executable bit of the modified file is judged
 }
 
 var (
@@ -214,6 +215,20 @@ type c08result struct {
 	invalid    bool
 	nontrivial bool
 	outcomes   []string
+	events     int // events executed on the real endpoint
+}
+
+// c08execBit is the C18 view of a path: is it a regular file, and is any
+// executable bit set.
+func c08execBit(root, name string) string {
+	info, err := os.Lstat(filepath.Join(root, filepath.FromSlash(name)))
+	if err != nil {
+		return "absent"
+	}
+	if !info.Mode().IsRegular() {
+		return "not-a-file"
+	}
+	return fmt.Sprintf("file executable=%v", info.Mode().Perm()&0o111 != 0)
 }
 
 func c08run(t *testing.T, e *env, src string, c c08case, logfn func(string, ...any)) (res c08result) {
@@ -254,6 +269,7 @@ func c08run(t *testing.T, e *env, src string, c c08case, logfn func(string, ...a
 		var watch []string      // paths modified after that Scan returned
 		modded := false
 		for i, ev := range c.Events {
+			res.events++
 			switch ev {
 			case "scan":
 				s, err, _ := ep.Scan(bg, nil, false)
@@ -325,8 +341,12 @@ func c08run(t *testing.T, e *env, src string, c c08case, logfn func(string, ...a
 				}
 				plan := c08planFrom(last)
 				before := map[string]string{}
+				fp := c08fingerprint
+				if c.ExecOnly {
+					fp = c08execBit
+				}
 				for _, w := range watch {
-					before[w] = c08fingerprint(root, w)
+					before[w] = fp(root, w)
 				}
 				results, problems, missing, err := ep.Transition(bg, plan)
 				logf("event %d transition: results=%s problems=%v missing=%v err=%v; disk %s", i, c21entries(results), c10problems(problems), missing, err, walkRoot(root))
@@ -339,7 +359,14 @@ func c08run(t *testing.T, e *env, src string, c c08case, logfn func(string, ...a
 				// scan recorded, or a symbolic link whose target differs. It never deletes a
 				// directory that contains entries the plan did not know about"
 				for _, w := range watch {
-					if after := c08fingerprint(root, w); after != before[w] {
+					if after := fp(root, w); after != before[w] {
+						if c.ExecOnly {
+							// C18: "a file's executable bit on that endpoint is never changed by
+							// synchronization ... even when the file's content is edited on the
+							// other endpoint" - the bit the user set after the scan must stand.
+							res.viol = fmt.Sprintf("event %d: the user set %q to [%s] (%s) after the last Scan returned; after the Transition that applies the peer's content edit it is [%s]", i, w, before[w], c.Mod, after)
+							return
+						}
 						res.viol = fmt.Sprintf("event %d: %q was modified (%s) after the last Scan returned, and the Transition changed it: %s -> %s", i, strings.TrimPrefix(w, "dir:"), c.Mod, before[w], after)
 						return
 					}
@@ -361,6 +388,10 @@ func c08run(t *testing.T, e *env, src string, c c08case, logfn func(string, ...a
 						if pr.Path == top || strings.HasPrefix(pr.Path, top+"/") {
 							named = true
 						}
+					}
+					if !named && c.ExecOnly {
+						res.outcomes = append(res.outcomes, "transition:bit-kept-but-not-reported")
+						named = true
 					}
 					if !named {
 						res.viol = fmt.Sprintf("event %d: %q was modified (%s) after the last Scan returned, survived, but no problem reports it (problems %v)", i, top, c.Mod, c10problems(problems))
@@ -395,6 +426,21 @@ func c08source(e *env) string {
 func TestC08EndpointPoll(t *testing.T) {
 	r := vr.New(t, "C08", "fault_enumeration")
 	defer r.Finish()
+	c08explore(t, r, c08mods, false)
+}
+
+// TestC18EndpointPoll is the same bubble exploration restricted to the
+// executable-bit modifications (and a chmod of other bits as control), judged
+// by C18's clause only: the plan replaces the CONTENT of f and x (the peer's
+// edit, executability as scanned), and the bit the user set after the last
+// returned Scan must be the bit on disk afterwards.
+func TestC18EndpointPoll(t *testing.T) {
+	r := vr.New(t, "C18", "model_checking")
+	defer r.Finish()
+	c08explore(t, r, []string{"plusx-f", "minusx-x", "chmod-f"}, true)
+}
+
+func c08explore(t *testing.T, r *vr.Report, mods []string, execOnly bool) {
 	e := newEnv(t)
 	src := c08source(e)
 	if raw := vr.ReplayCase(); raw != nil {
@@ -405,6 +451,9 @@ func TestC08EndpointPoll(t *testing.T) {
 		res := c08run(t, e, src, c, t.Logf)
 		t.Logf("replay %s: outcomes %v verdict %q infra %q", vr.J(c), res.outcomes, res.viol, res.infra)
 		r.Case(vr.J(c), res.nontrivial)
+		r.Set("states", 1)
+		r.Set("transitions", res.events)
+		r.Set("traces_validated_against_impl", 1)
 		if res.infra != "" {
 			t.Fatalf("INFRA: %s", res.infra)
 		}
@@ -471,7 +520,7 @@ func TestC08EndpointPoll(t *testing.T) {
 		}
 	}
 	seqs = kept
-	r.Rule(fmt.Sprintf("polling-endpoint leg: real local endpoint, force-poll 1 s, scan mode {accelerated, full}, one testing/synctest bubble per history; tree {f, g, x (executable), l -> f, d/c}; plan derived from the last snapshot Scan returned (f, x: new content; g, l, d: removed); one modification from {chmod f, +x f, -x x, same-size rewrite f/g, resize f/g, new inode g/x, retarget l, add child to d, g -> directory, d -> file, touch f}; every history of exactly %d events from {scan, mod, advance 1.1 s, advance 3.1 s, stage+receive, transition} with exactly one mod, ending in transition, in which a scan precedes the first stage/transition and some transition follows the mod with no scan in between; non-trivial = a modified path was protected and reported; distinct by the whole case", depth))
+	r.Rule(fmt.Sprintf("polling-endpoint leg: real local endpoint, force-poll 1 s, scan mode {accelerated, full}, one testing/synctest bubble per history; tree {f, g, x (executable), l -> f, d/c}; plan derived from the last snapshot Scan returned (f, x: new content; g, l, d: removed); one modification from %v (execonly=%v: only the executable bit of the modified file is judged); every history of exactly %d events from {scan, mod, advance 1.1 s, advance 3.1 s, stage+receive, transition} with exactly one mod, ending in transition, in which a scan precedes the first stage/transition and some transition follows the mod with no scan in between; non-trivial = a modified path was protected and reported; distinct by the whole case", mods, execOnly, depth))
 	r.Assume("judged only: modifications made after the last Scan returned to the caller (what an accelerated Scan recorded about earlier modifications depends on the poller and is not modelled)",
 		"a history ends at the first endpoint call that returns an error", "harness events happen at quiescence (synctest.Wait); virtual time moves only through the advance events")
 	r.Set("histories_per_modification_and_mode", len(seqs))
@@ -483,7 +532,7 @@ func TestC08EndpointPoll(t *testing.T) {
 	var jobs []job
 	const chunk = 40
 	for _, mode := range []string{"accelerated", "full"} {
-		for _, mod := range c08mods {
+		for _, mod := range mods {
 			for lo := 0; lo < len(seqs); lo += chunk {
 				jobs = append(jobs, job{mode, mod, lo, min(lo+chunk, len(seqs))})
 			}
@@ -497,7 +546,7 @@ func TestC08EndpointPoll(t *testing.T) {
 	var mu sync.Mutex
 	var infra []string
 	deadline := vr.Deadline(12*time.Minute, 40*time.Minute)
-	var skipped atomic.Int64
+	var skipped, histories, events atomic.Int64
 	t.Run("bubbles", func(t *testing.T) {
 		for wk := 0; wk < vr.Workers(); wk++ {
 			t.Run(fmt.Sprintf("w%d", wk), func(t *testing.T) {
@@ -510,11 +559,13 @@ func TestC08EndpointPoll(t *testing.T) {
 						continue
 					}
 					for _, seq := range seqs[j.lo:j.hi] {
-						c := c08case{j.mode, j.mod, seq}
+						c := c08case{ScanMode: j.mode, Mod: j.mod, Events: seq, ExecOnly: execOnly}
 						res := c08run(t, e, src, c, nil)
 						if res.invalid {
 							continue
 						}
+						histories.Add(1)
+						events.Add(int64(res.events))
 						if res.infra != "" {
 							mu.Lock()
 							if len(infra) < 5 {
@@ -536,12 +587,17 @@ func TestC08EndpointPoll(t *testing.T) {
 			})
 		}
 	})
+	// model_checking evidence keys (used by the C18 registration): distinct
+	// histories explored, events executed, histories run on the real endpoint.
+	r.Set("states", histories.Load())
+	r.Set("transitions", events.Load())
+	r.Set("traces_validated_against_impl", histories.Load())
 	if n := skipped.Load(); n > 0 {
 		r.NotExhaustive(fmt.Sprintf("time budget reached: %d of %d work units not run", n, len(jobs)))
 	}
 	if len(infra) > 0 {
 		t.Fatalf("INFRA: %s", strings.Join(infra, "\n"))
 	}
-	r.Sample(c08case{"accelerated", "plusx-f", []string{"scan", "mod", "tick1", "stage", "transition"}})
-	r.Sample(c08case{"full", "rewrite-g", []string{"scan", "tick1", "mod", "tick3", "transition"}})
+	r.Sample(c08case{ScanMode: "accelerated", Mod: "plusx-f", Events: []string{"scan", "mod", "tick1", "stage", "transition"}, ExecOnly: execOnly})
+	r.Sample(c08case{ScanMode: "full", Mod: mods[1], Events: []string{"scan", "tick1", "mod", "tick3", "transition"}, ExecOnly: execOnly})
 }
